@@ -54,6 +54,7 @@ pub trait Case {
     fn name(&self) -> &'static str;
     fn meta(&self) -> &'static str;
     fn plen(&self) -> usize;
+    fn blen(&self) -> usize;
     fn sample(&self, rng: &mut Rng, canon: bool) -> Sample;
     fn unpack(&self, buf: &[u8]) -> Result<Result<Value, ()>, String>;
 }
@@ -61,6 +62,7 @@ pub trait Case {
 fn run_case(c: &dyn Case, rng: &mut Rng, samples: usize, out: &mut Vec<String>) {
     let meta: Value = serde_json::from_str(c.meta()).unwrap();
     let plen = c.plen();
+    out.push(json!({"id": c.name(), "op": "buffer", "plen": plen, "item": 0, "n": 0, "buflen": c.blen()}).to_string());
     for s in 0..samples {
         let canon = s % 3 != 2;
         let id = format!("{}-{s}", c.name());
@@ -111,6 +113,51 @@ fn run_case(c: &dyn Case, rng: &mut Rng, samples: usize, out: &mut Vec<String>) 
     }
 }
 
+/// Arrays of primitive items: the scratch buffer the crate hands out for the type holds its packed form, and
+/// decoding takes the items from consecutive little-endian positions.
+macro_rules! array_case {
+    ($out:expr, $rng:expr, $ty:ty, $n:literal) => {{
+        type A = [$ty; $n];
+        let name = format!("[{}; {}]", stringify!($ty), $n);
+        let plen = <A as ethercrab_wire::EtherCrabWireSized>::PACKED_LEN;
+        let buflen = guarded(|| <A as ethercrab_wire::EtherCrabWireSized>::buffer().as_ref().len());
+        $out.push(
+            json!({"id": name, "op": "buffer", "plen": plen, "item": core::mem::size_of::<$ty>(), "n": $n,
+                   "buflen": match buflen { Ok(n) => n as i64, Err(_) => -1 }})
+            .to_string(),
+        );
+        for variant in 0..3 {
+            let len = match variant { 0 => plen + $rng.below(4) as usize, 1 => plen, _ => $rng.below(plen as u64) as usize };
+            let buf = $rng.bytes(len);
+            let r = guarded(|| <A as ethercrab_wire::EtherCrabWireRead>::unpack_from_slice(&buf));
+            let (res, flat) = match r {
+                Ok(Ok(a)) => ("ok", a.iter().flat_map(|x| x.to_le_bytes()).collect::<Vec<u8>>()),
+                Ok(Err(_)) => ("err", vec![]),
+                Err(_) => ("panic", vec![]),
+            };
+            $out.push(
+                json!({"id": format!("{name}-u{variant}"), "op": "array_unpack", "plen": plen, "buf": bv(buf), "res": res, "flat": bv(flat)})
+                    .to_string(),
+            );
+        }
+    }};
+}
+
+fn array_cases(rng: &mut Rng, out: &mut Vec<String>) {
+    array_case!(out, rng, u8, 1);
+    array_case!(out, rng, u8, 6);
+    array_case!(out, rng, i8, 3);
+    array_case!(out, rng, u16, 1);
+    array_case!(out, rng, u16, 4);
+    array_case!(out, rng, i16, 5);
+    array_case!(out, rng, u32, 3);
+    array_case!(out, rng, i32, 2);
+    array_case!(out, rng, u64, 2);
+    array_case!(out, rng, i64, 3);
+    array_case!(out, rng, f32, 2);
+    array_case!(out, rng, f64, 2);
+}
+
 fn main() {
     let args: Vec<String> = std::env::args().collect();
     let seed: u64 = args[1].parse().unwrap();
@@ -122,6 +169,7 @@ fn main() {
     for c in generated::cases() {
         run_case(c.as_ref(), &mut rng, samples, &mut lines);
     }
+    array_cases(&mut rng, &mut lines);
     for l in lines {
         writeln!(out, "{l}").unwrap();
     }
